@@ -37,9 +37,10 @@ StrictOK(m, vol, n, lo) == AssignOK(m, vol, n, lo)
 MemOK(m, vol, n, lo) == ~AssignOK(m, vol, n, lo) /\ MemReissueOK(m, vol, n, lo)
 IsNextRet == \E r \in Pending(Ev.p) : r.op = "next"
 TRet == /\ IsEvent("ret")
-        /\ \/ Strict /\ RetWith(Ev.p, Ev.start, StrictOK)
-           \/ Deviate("C13-memory-leader-change-reissue") /\ IsNextRet /\ RetWith(Ev.p, Ev.start, MemOK)
-           \/ Deviate("C13-snowflake-count-ignored") /\ IsNextRet /\ RetWith(Ev.p, Ev.start, SnowTailOK)
+        /\ \/ Ev.err /\ Strict /\ RetRefused(Ev.p)
+           \/ ~Ev.err /\ Strict /\ RetWith(Ev.p, Ev.start, StrictOK)
+           \/ ~Ev.err /\ Deviate("C13-memory-leader-change-reissue") /\ IsNextRet /\ RetWith(Ev.p, Ev.start, MemOK)
+           \/ ~Ev.err /\ Deviate("C13-snowflake-count-ignored") /\ IsNextRet /\ RetWith(Ev.p, Ev.start, SnowTailOK)
         /\ UNCHANGED hist
 (* "panic" and "race" events are consumed by no action: an execution containing one is rejected *)
 TraceNext == \/ TraceReset \/ TraceSkip \/ TPre \/ TNext \/ TWrite \/ THb \/ TSetMax \/ TLeader
